@@ -465,6 +465,19 @@ class Interp:
                 for e in target.elts:
                     self.assign(e, TOP, env, f)
                 return
+            stars = [i for i, e in enumerate(target.elts) if isinstance(e, ast.Starred)]
+            if len(stars) == 1 and isinstance(v, (tuple, list)):
+                # a, *rest, z = sequence
+                i = stars[0]
+                after = len(target.elts) - i - 1
+                if len(v) < len(target.elts) - 1:
+                    raise _Raise("ValueError")
+                for e, x in zip(target.elts[:i], v[:i]):
+                    self.assign(e, x, env, f)
+                self.assign(target.elts[i].value, list(v[i:len(v) - after]), env, f)
+                for e, x in zip(target.elts[i + 1:], v[len(v) - after:] if after else []):
+                    self.assign(e, x, env, f)
+                return
             if not isinstance(v, (tuple, list)) or len(v) != len(target.elts):
                 if v is None:
                     raise _Raise("TypeError")
@@ -764,13 +777,19 @@ class Interp:
                 if key in m:
                     return m[key]
                 raise _Raise("KeyError")
-            if isinstance(base, (tuple, list)) and isinstance(e.slice, ast.Slice):
+            if isinstance(base, (tuple, list)) or (isinstance(base, str) and not base.startswith("<")):
+              if isinstance(e.slice, ast.Slice):
                 lo = None if e.slice.lower is None else self.eval(e.slice.lower, env, f)
                 hi = None if e.slice.upper is None else self.eval(e.slice.upper, env, f)
                 st_ = None if e.slice.step is None else self.eval(e.slice.step, env, f)
                 if all(x is None or (isinstance(x, int) and not isinstance(x, bool)) for x in (lo, hi, st_)) and st_ != 0:
                     return base[lo:hi:st_]
                 return TOP
+            if isinstance(base, str) and not base.startswith("<") and isinstance(key, int) and not isinstance(key, bool):
+                try:
+                    return base[key]
+                except IndexError:
+                    raise _Raise("IndexError")
             if isinstance(base, dict) and isinstance(key, tuple) and all(isinstance(x, (str, int, type(None))) for x in key):
                 if key in base:
                     return base[key]
